@@ -284,6 +284,10 @@ func constraintSrc(c string, r *renderer) string {
 		var p int
 		fmt.Sscanf(c, "pkgnum:%d", &p)
 		return r.qual(p) + "Num"
+	case strings.HasPrefix(c, "pkgiface:"):
+		var p int
+		fmt.Sscanf(c, "pkgiface:%d", &p)
+		return r.qual(p) + "I"
 	}
 	return c
 }
